@@ -369,6 +369,7 @@ func resultNames(fn *ssa.Function) []string {
 func (ex *Exec) havocTarget(env *Env, st *State, m *ModTarget) {
 	switch m.Kind {
 	case ModAll:
+		ex.modAllCount++
 		for k, s := range st.sorts {
 			if k == allocKey {
 				continue
